@@ -311,7 +311,7 @@ def _unary_ops(tier: str) -> typing.List[typing.Tuple[str, int]]:
 
 
 LOOKALIKE = [([8, 40, 72], [8, 72]), ([0, 96, 192], [0, 192]), ([3, 35, 67, 99], [3, 99]), ([16, 48], [16, 48]),
-             ([1, 33, 65], [1, 65])]
+             ([1, 33, 65], [1, 65]), ([0, 32, 96], [0, 64, 96]), ([8, 40, 104], [8, 72, 104])]
 
 
 def make_lookalike(pair: int, op: str):
@@ -343,6 +343,11 @@ def make_lookalike(pair: int, op: str):
                 y, want = x.pad_to_alignment(r), {-((-v) // r) * r for v in vals}
             elif op == "cat":
                 y, want = x + BitLengthSet([k, 5]), {v + w for v in vals for w in (k, 5)}
+            elif op == "unite":
+                a2, b2 = LOOKALIKE[pair]
+                other = b2 if vals == a2 else a2
+                y = BitLengthSet.unite([x, BitLengthSet(other), BitLengthSet([k])]) if order else (x | BitLengthSet(other) | k)
+                want = set(vals) | set(other) | {k}
             else:
                 y, want = x | BitLengthSet([k]), set(vals) | {k}
             got = {v for v in y}
@@ -369,7 +374,7 @@ def make_lookalike(pair: int, op: str):
 def conditions(tier: str, seed: int) -> typing.List[Cond]:
     out = _conditions(tier, seed)
     for pi in range(len(LOOKALIKE)):
-        for op in ("rep", "rng", "pad", "cat", "uni"):
+        for op in ("rep", "rng", "pad", "cat", "uni", "unite"):
             out.append(Cond(PROP, "c01.lookalike", make_lookalike, {"pair": pi, "op": op}, {"k": int, "order": int}, kind="choice",
                             assumptions=["two different sets equal in min, max and residues mod 32; parameter k in 0..3; both orders"],
                             witness={"k": 2, "order": 0}, budget=120.0))
